@@ -122,7 +122,7 @@ class Script:
         ("settings", "rst == 0 and ping == 0 and b0 == 0 and p2 == 0 and p3 == 0 and p4 == 0 and p5 == 0 and d0 == 0 and c0 == 0"),
         ("rst", "sv == 0 and ping == 0 and b0 == 0 and p4 == 0 and p5 == 0 and d0 == 0 and c0 == 0"),
         ("ping", "sv == 0 and rst == 0 and b0 == 0 and p2 == 0 and p3 == 0 and p4 == 0 and p5 == 0 and aband == 0 and d0 == 0 and c0 == 0"))]
-    + [{"S": 2, "mode": "cancel", "_pre": f"cz > 0 and sv == {v} and rst == 0 and ping == 0 and b0 == 0 and p3 == 0 and p4 == 0 and p5 == 0 and aband == 0 and d0 == 0 and c0 == 0 and sa <= 5"}
+    + [{"S": 2, "mode": "cancel", "_pre": f"cz > 0 and sv == {v} and rst == 0 and ping == 0 and b0 in (0, 3, 4, 5) and p2 == 0 and p3 == 0 and p4 == 0 and p5 == 0 and aband == 0 and d0 == 0 and c0 == 0 and sa <= 5"}
        for v in (0, 5)]
     + [{"S": 3, "mode": "limited", "adv": adv, "cold": cold,
         "_pre": "sv == 0 and rst == 0 and ping == 0 and b0 == 0 and p1 == 0 and p2 == 0 and p3 == 0 and p4 == 0 and p5 == 0 and aband == 0 and d0 <= 12"}
